@@ -17,6 +17,10 @@ What is transcribed
   including in the middle of a reload (in the model: before or after the atomic reload step, which
   is the same thing because the only effect of a reload a reader can see — the content of its
   pinned instance changing — happens at one point, `CatchWithPrimary`).
+* A `qread` is a *fetch from the backend*. The RocksDB reader keeps every fetched key in its
+  per-request `rdb.Context.cache`; a second lookup of the same key inside one query (e.g.
+  `FindAnswer` after `IsAuthoritative` already fetched the qname's key) is served from there and is
+  not a new read. Different keys are fetched independently — each sees the content at its own time.
 * `cdbdriver.Reload(path)` always opens the file again: a new instance with the content now on disk.
   `rdbdriver.Reload(path)`: `path == r.path` ⇒ `CatchWithPrimary()` on the SAME open instance — the
   content under every reader of that instance changes in place — and the same `DBI` is returned;
